@@ -1731,7 +1731,16 @@ func genTx(rt *rapid.T, label string, w walletView, maxData int, cast []json.Raw
 			cl = append(cl, "sendtx:data-absent")
 		}
 	default:
-		tx.To = gen.HexBytes(rt, label+".to", 20)
+		switch rapid.IntRange(0, 5).Draw(rt, label+".toShape") {
+		case 0: // the zero address is an address, not "no destination"
+			tx.To = strings.Repeat("00", 20)
+			cl = append(cl, "sendtx:to-zero-address")
+		case 1:
+			tx.To = strings.Repeat("00", 19) + hex.EncodeToString([]byte{rapid.Byte().Draw(rt, label+".toLast")})
+			cl = append(cl, "sendtx:to-leading-zeros")
+		default:
+			tx.To = gen.HexBytes(rt, label+".to", 20)
+		}
 		tx.DataToken = true
 	}
 	if !tx.DataAbsent {
